@@ -1723,4 +1723,165 @@ theorem mergeAllF_abs (o : ListStrategy) (f : Nat) :
       simp only [mergeAllF, mergeContainersF_eq g1 g2, hm]
       exact hrest
 
+/-! ### the merged spine, path by path -/
+
+theorem lookupKeys_mono {h h' : Heap} (hl : h ≤ h') :
+    ∀ (ks : List String) (a z : Addr), lookupKeys h a ks = some z → lookupKeys h' a ks = some z
+  | [], _, _, hz => hz
+  | k :: ks, a, z, hz => by
+    simp only [lookupKeys] at hz ⊢
+    cases hg : h.get? a with
+    | none => simp [hg] at hz
+    | some c =>
+      rw [get?_of_le hl hg]
+      simp only [hg] at hz
+      cases c with
+      | leaf s => simp at hz
+      | list xs => simp at hz
+      | cont kvs =>
+        simp only at hz ⊢
+        cases hk : AMap.get? kvs k with
+        | none => simp [hk] at hz
+        | some c' =>
+          simp only [hk] at hz ⊢
+          exact lookupKeys_mono hl ks c' z hz
+
+theorem lookupKeys_cons_inv {h : Heap} {a z : Addr} {k : String} {ks : List String}
+    (hz : lookupKeys h a (k :: ks) = some z) :
+    ∃ kvs c, h.get? a = some (.cont kvs) ∧ AMap.get? kvs k = some c ∧ lookupKeys h c ks = some z := by
+  simp only [lookupKeys] at hz
+  cases hg : h.get? a with
+  | none => simp [hg] at hz
+  | some cell =>
+    simp only [hg] at hz
+    cases cell with
+    | leaf s => simp at hz
+    | list xs => simp at hz
+    | cont kvs =>
+      simp only at hz
+      cases hk : AMap.get? kvs k with
+      | none => simp [hk] at hz
+      | some c => simp only [hk] at hz; exact ⟨kvs, c, rfl, hk, hz⟩
+
+theorem foldKvs_get_notin {g : Heap → Addr → Addr → Option (Heap × Addr)} :
+    ∀ (kb : List (String × Addr)) (h : Heap) (acc : AMap Addr) (h' : Heap) (m : AMap Addr) (k : String),
+      k ∉ kb.map (·.1) → foldKvs g h acc kb = some (h', m) → AMap.get? m k = AMap.get? acc k
+  | [], h, acc, h', m, k, _, hf => by
+    simp only [foldKvs, Option.some.injEq, Prod.mk.injEq] at hf
+    rw [hf.2]
+  | (k0, v0) :: rest, h, acc, h', m, k, hk, hf => by
+    simp only [List.map_cons, List.mem_cons, not_or] at hk
+    obtain ⟨hne, hrest⟩ := hk
+    cases hk0 : AMap.get? acc k0 with
+    | none =>
+      rw [foldKvs_cons_none hk0] at hf
+      rw [foldKvs_get_notin rest h _ h' m k hrest hf, AMap.get?_insert_ne acc v0 hne]
+    | some n =>
+      rw [foldKvs_cons_some hk0] at hf
+      cases hgn : g h n v0 with
+      | none => simp [hgn] at hf
+      | some q =>
+        obtain ⟨h1, r⟩ := q
+        simp only [hgn, Option.bind_some] at hf
+        rw [foldKvs_get_notin rest h1 _ h' m k hrest hf, AMap.get?_insert_ne acc r hne]
+
+/-- a key present on both sides holds, after the fold, the result of ONE call of `g` on the two
+    members, made at some intermediate heap -/
+theorem foldKvs_get_both {g : Heap → Addr → Addr → Option (Heap × Addr)} (hl : LeSpec2 g) :
+    ∀ (kb : List (String × Addr)) (h : Heap) (acc : AMap Addr) (h' : Heap) (m : AMap Addr)
+      (k : String) (cn cv : Addr), (kb.map (·.1)).Nodup → (k, cv) ∈ kb → AMap.get? acc k = some cn →
+      foldKvs g h acc kb = some (h', m) →
+      ∃ hi hi' z, h ≤ hi ∧ g hi cn cv = some (hi', z) ∧ hi' ≤ h' ∧ AMap.get? m k = some z
+  | [], _, _, _, _, _, _, _, _, hmem, _, _ => by cases hmem
+  | (k0, v0) :: rest, h, acc, h', m, k, cn, cv, hnd, hmem, hacc, hf => by
+    simp only [List.map_cons, List.nodup_cons] at hnd
+    obtain ⟨hk0, hndr⟩ := hnd
+    rcases List.mem_cons.mp hmem with heq | hmem'
+    · have e1 : k0 = k := (Prod.mk.inj heq).1.symm
+      have e2 : v0 = cv := (Prod.mk.inj heq).2.symm
+      subst e1; subst e2
+      rw [foldKvs_cons_some hacc] at hf
+      cases hgn : g h cn v0 with
+      | none => simp [hgn] at hf
+      | some q =>
+        obtain ⟨h1, z⟩ := q
+        simp only [hgn, Option.bind_some] at hf
+        refine ⟨h, h1, z, le_refl _, hgn, foldKvs_le hl rest h1 _ h' m hf, ?_⟩
+        rw [foldKvs_get_notin rest h1 _ h' m k0 hk0 hf, AMap.get?_insert_self]
+    · have hne : k ≠ k0 := by
+        intro e
+        exact hk0 (List.mem_map.mpr ⟨(k, cv), hmem', e⟩)
+      cases hk0' : AMap.get? acc k0 with
+      | none =>
+        rw [foldKvs_cons_none hk0'] at hf
+        exact foldKvs_get_both hl rest h _ h' m k cn cv hndr hmem'
+          (by rw [AMap.get?_insert_ne acc v0 hne]; exact hacc) hf
+      | some n =>
+        rw [foldKvs_cons_some hk0'] at hf
+        cases hgn : g h n v0 with
+        | none => simp [hgn] at hf
+        | some q =>
+          obtain ⟨h1, r⟩ := q
+          simp only [hgn, Option.bind_some] at hf
+          obtain ⟨hi, hi', z, l1, hg, l2, hz⟩ := foldKvs_get_both hl rest h1 _ h' m k cn cv hndr hmem'
+            (by rw [AMap.get?_insert_ne acc r hne]; exact hacc) hf
+          exact ⟨hi, hi', z, le_trans (hl h n v0 h1 r hgn) l1, hg, l2, hz⟩
+
+/-- SPINE, path by path: for every path of member names that leads to a container in both
+    inputs, the result has a NEWLY ALLOCATED container at that path -/
+theorem mergeNodeF_spine_path (o : ListStrategy) {h0 : Heap} (hc : h0.Closed) (hs : h0.MapsOk) :
+    ∀ (ks : List String) (f : Nat) (h : Heap) (n v : Addr) (h' : Heap) (r x y : Addr),
+      h0 ≤ h → n < h0.size → v < h0.size → mergeNodeF o f h n v = some (h', r) →
+      lookupKeys h0 n ks = some x → lookupKeys h0 v ks = some y →
+      (∃ kx, h0.get? x = some (.cont kx)) → (∃ ky, h0.get? y = some (.cont ky)) →
+      ∃ z m, lookupKeys h' r ks = some z ∧ h.size ≤ z ∧ z < h'.size ∧ h'.get? z = some (.cont m)
+  | [], f, h, n, v, h', r, x, y, hl, hn, hv, hm, hx, hy, ⟨kx, cx⟩, ⟨ky, cy⟩ => by
+    simp only [lookupKeys, Option.some.injEq] at hx hy
+    subst hx; subst hy
+    have gx : h.get? n = some (.cont kx) := get?_of_le hl cx
+    have gy : h.get? v = some (.cont ky) := get?_of_le hl cy
+    obtain ⟨b1, b2, c, hc', k1, _⟩ := mergeNodeF_spine_fresh hm gx gy (Or.inl ⟨rfl, rfl⟩)
+    cases c with
+    | leaf s => simp [Cell.isCont] at k1
+    | list xs => simp [Cell.isCont] at k1
+    | cont m => exact ⟨r, m, rfl, b1, b2, hc'⟩
+  | k :: ks, f, h, n, v, h', r, x, y, hl, _, _, hm, hx, hy, cx, cy => by
+    obtain ⟨ka, cn, gn0, hka, hxn⟩ := lookupKeys_cons_inv hx
+    obtain ⟨kb, cv, gv0, hkb, hyv⟩ := lookupKeys_cons_inv hy
+    have gn : h.get? n = some (.cont ka) := get?_of_le hl gn0
+    have gv : h.get? v = some (.cont kb) := get?_of_le hl gv0
+    cases f with
+    | zero => simp [mergeNodeF] at hm
+    | succ f =>
+      rw [mergeNodeF_cont gn gv] at hm
+      cases hf : foldKvs (mergeNodeF o f) h ka kb with
+      | none => simp [hf] at hm
+      | some q =>
+        obtain ⟨h1, m⟩ := q
+        simp only [hf, Option.bind_some, Option.some.injEq] at hm
+        have e1 : h' = (h1.alloc (.cont m)).1 := (congrArg Prod.fst hm).symm
+        have e2 : r = h1.size := (congrArg Prod.snd hm).symm
+        subst e1; subst e2
+        obtain ⟨hi, hi', z', l1, hg, l2, hz'⟩ := foldKvs_get_both (mergeNodeF_le o f) kb h ka h1 m k cn cv
+          (Ytk.keys_nodup_of_sorted (hs v kb gv0)) (AMap.mem_of_get? hkb) hka hf
+        have hcn : cn < h0.size := hc n _ gn0 cn (by
+          simp only [Cell.kids, List.mem_map]; exact ⟨(k, cn), AMap.mem_of_get? hka, rfl⟩)
+        have hcv : cv < h0.size := hc v _ gv0 cv (by
+          simp only [Cell.kids, List.mem_map]; exact ⟨(k, cv), AMap.mem_of_get? hkb, rfl⟩)
+        obtain ⟨z, mz, hz, b1, b2, gz⟩ := mergeNodeF_spine_path o hc hs ks f hi cn cv hi' z' x y
+          (le_trans hl l1) hcn hcv hg hxn hyv cx cy
+        have l3 : hi' ≤ (h1.alloc (.cont m)).1 := le_trans l2 (le_alloc _ _)
+        refine ⟨z, mz, ?_, Nat.le_trans (size_le_of_le l1) b1,
+          Nat.lt_of_lt_of_le b2 (size_le_of_le l3), get?_of_le l3 gz⟩
+        simp only [lookupKeys, get?_alloc_new, hz']
+        exact lookupKeys_mono l3 ks z' z hz
+
+theorem mapsOk_of_all {h : Heap}
+    (hall : (h.cells.all fun c => match c with | .cont kvs => Ytk.sortedb kvs | _ => true) = true) :
+    h.MapsOk := by
+  intro a kvs hg
+  have hc : Cell.cont kvs ∈ h.cells := List.mem_of_getElem? hg
+  have := List.all_eq_true.mp hall _ hc
+  exact Ytk.sorted_of_sortedb kvs this
+
 end Ytk.Heap
